@@ -593,19 +593,23 @@ Section Oracles.
     sset (cons_key (cs_latest cs)) (VCons cons)
          (set_metadata (sset client_key (VClient cs) s) (cs_latest cs) now).
 
-  (** ** client_state.go: verifyDelayPeriodPassed — the addition wraps *)
-  Definition verify_delay_period_passed (s : store) (now : Z) (h : height) (delay : N) : outcome unit :=
+  (** ** client_state.go: verifyDelayPeriodPassed — the uint64 addition wraps.
+      [guard = false] is the code as it stands (finding D12 / tm-delay-overflow);
+      [guard = true] is the one-condition repair proposed in
+      /var/tmp/fixes/C07 (refuse when the sum wrapped: validTime < processedTime).
+      The correspondence check reports which of the two the tree implements. *)
+  Definition verify_delay_period_passed (guard : bool) (s : store) (now : Z) (h : height) (delay : N) : outcome unit :=
     match get_processed_time s h with
     | None => Err
     | Some o =>
         pt <- o ;;
         let valid_time := add64 pt delay in
-        if (u64 now <? valid_time)%N then Err else Ok tt
+        if (guard && (valid_time <? pt)%N) || (u64 now <? valid_time)%N then Err else Ok tt
     end.
 
   (** ** client_state.go: produceVerificationArgs + VerifyPacketCommitment /
       VerifyPacketAcknowledgement ([ack] selects the path) *)
-  Definition verify_packet (cs : client_state) (s : store) (now : Z) (h : height) (proof : option bytes)
+  Definition verify_packet (guard : bool) (cs : client_state) (s : store) (now : Z) (h : height) (proof : option bytes)
              (ack : bool) (path : bytes * bytes * N) (val : bytes) : outcome unit :=
     if h_lt (cs_latest cs) h then Err else
     match proof with
@@ -613,7 +617,7 @@ Section Oracles.
     | Some pf =>
         if negb (proof_decodes pf) then Err else
         cons <- get_cons s h ;;
-        _ <- verify_delay_period_passed s now h (cs_delay cs) ;;
+        _ <- verify_delay_period_passed guard s now h (cs_delay cs) ;;
         if membership_ok cs (c_root cons) pf ack path val then Ok tt else Err
     end.
 
